@@ -130,5 +130,24 @@ def run(ck):
     ck.require_fact("S5.reply-too-large", ck.flow(ca), ev_return(E.M(lambda x: E.const(x) != 0, "non-false")), big, False, "return true",
                     why="(a reply with an over-long header would be relayed)")
     ck.require_response("S5.reply-too-large", ca, big, True, ev_call("FwdState::fail"), "fwd->fail()")
+    ck.rule("S6 the first-line size that is added to the MIME size for the limit test accounts for every variable-length component the first-line parser stored: "
+            "RequestParser::firstLineSize sums method_ and uri_ lengths, ResponseParser::firstLineSize sums the protocol magic and reasonPhrase_ lengths (the parsed first line "
+            "is no longer in the buffer, so this is the only place its bytes count against the limit)")
+    _cfacts = ck.facts(["src/http/one/RequestParser.cc", "src/http/one/ResponseParser.cc"])
+    for _fname, _members in (("Http::One::RequestParser::firstLineSize", ("method_", "uri_")), ("Http::One::ResponseParser::firstLineSize", ("reasonPhrase_",))):
+        _fn = _cfacts.fn(_fname)
+        _fl = ck.flow(_fn)
+        for _m in _members:
+            _counts = lambda ev, _m=_m: any(n.get("k") == "call" and n.get("f", "").endswith("::length") and _m in " ".join(E.mentions(n)) for t in (ev.get("x"), ev.get("rhs"), ev.get("init")) if t is not None for n in E.walk(t))
+            # returns of a zero/unknown-protocol size (nothing was parsed) are exempt: only returns after some component was counted must be complete
+            _some = lambda ev: ev.get("e") == "asg" and ev.get("op") == "+=" and any(n.get("k") == "call" and n.get("f", "").endswith("::length") for n in E.walk(ev.get("rhs")))
+            _marked = ck.flow(_fn, markers={"counted": _counts, "some": _some}, track_markers=["some", "counted"])
+            bad = [s_ for s_ in _marked.find(lambda ev: ev.get("e") == "ret")
+                   if not (s_.passed("counted") or _counts(s_.ev)) and (s_.passed("some") or E.const(s_.ev.get("x")) is None and E.strip(s_.ev.get("x")).get("k") != "ref")]
+            if not bad:
+                ck.ok("S6.first-line-size-complete", _fn.where(), "%s counts %s.length() on every path" % (_fname.split("::")[-2], _m))
+            for s_ in bad:
+                ck.violation("S6.first-line-size-complete", "S6|%s|%s" % (_fname.split("::")[-2], _m), s_.where(),
+                             "%s can return without adding %s.length(): a long %s escapes the header size limit" % (_fname, _m, _m))
     ck.assume("headersEnd()/firstLineSize() arithmetic, what FwdState::fail()/setReplyError() send, the FTP and ICAP parsers, and incremental arrival at the "
               "boundary are not analysed")
